@@ -283,7 +283,29 @@ def r6_idle_client(ctx):
             r.check(e[0] == 'const' and e[1] == 0, 'maybe_close|NO_ERROR', mc.loc(g), 'reason = NO_ERROR')
 
 
+def r8_last_ref_wakes(ctx):
+    r = ctx.rule('C19.R8', 'GUARD', 'dropping the last handle of a closed stream wakes the connection task, whatever queues or reset memory the stream is still in')
+    F = ctx.facts
+    f = r.fn(P + 'streams::drop_stream_ref')
+    if not f:
+        return
+    wakes = [bi for bi, t in f.calls(lambda t: t['fn'].endswith('Waker::wake'))]
+    r.floor(len(wakes), 1, 'wake sites in drop_stream_ref')
+    allowed = {'field:ref_count', 'call:is_closed', 'field:task'}
+    for bi in wakes:
+        atoms = core.dominating_atoms(F, f, bi)
+        extra = sorted(a for a in atoms if a not in allowed)
+        need = {'field:ref_count', 'call:is_closed'} <= atoms
+        r.check(not extra, 'drop_stream_ref|wake-guard', f.loc(bi),
+                'the wake is conditioned on %s%s' % (sorted(atoms), '' if not extra else ' — %s narrows it: a closed, unreferenced stream that is still remembered (reset_at) or queued no longer wakes an idle connection, which then never sends its GOAWAY' % extra))
+        r.check(need, 'drop_stream_ref|wake-guard|shape', f.loc(bi), 'the wake is for closed streams whose last reference went away (ref_count == 0 && is_closed)')
+    # the decrement of Inner.refs precedes the wake
+    decs = [bi for bi, si, pl, rv, ln in f.stmts() if core.write_target(f, pl) == (P + 'streams::Inner', 'refs')]
+    r.check(bool(decs) and all(f.dominated_by_blocks(w, decs) for w in wakes), 'drop_stream_ref|refs-first', f.file, 'Inner.refs is decremented before the connection is woken')
+
+
 def run(ctx):
+    r8_last_ref_wakes(ctx)
     r1_registry(ctx)
     r2_removal(ctx)
     r3_insert_rollback(ctx)
